@@ -160,7 +160,11 @@ def run_wide(spec, rec):
     nwide = 2 if spec['tier'] == 'quick' else 12
     for widx in range(nwide):
         rng = core.rng_for(seed, PROP, 'wide', spec['shard'], widx)
-        case = H.gen_wide(rng, rng.choice([1, 2]))
+        if widx == 0 and spec['shard'] == 0:
+            # more than a thousand ready tasks for one worker
+            case = H.gen_wide(rng, 1, per_worker=1030)
+        else:
+            case = H.gen_wide(rng, rng.choice([1, 2]))
         case['outcomes'] = {n: 'ok' for n in case['tasks']}
         case['init'] = {}
         case['cyclic'] = None
